@@ -137,7 +137,7 @@ func TestLbvcBoundedReaders(t *testing.T) {
 					err error
 				}
 				done := make(chan res, 1)
-				ctx, cancel := context.WithTimeout(context.Background(), 400*time.Millisecond)
+				ctx, cancel := context.WithTimeout(context.Background(), 5*time.Second)
 				go func() {
 					m, off, _, _, err := r.ReadMessage(ctx, hb)
 					if err != nil {
@@ -146,19 +146,19 @@ func TestLbvcBoundedReaders(t *testing.T) {
 					}
 					done <- res{off: off, val: string(m.Value())}
 				}()
-				t0 := time.Now()
 				time.Sleep(3 * time.Millisecond)
 				app()
 				got := <-done
+				timedOut := ctx.Err() != nil
 				cancel()
-				if got.err != nil && time.Since(t0) < 300*time.Millisecond {
+				if got.err != nil && !timedOut {
 					// the read failed at once with an error (an uncommitted reader cannot be (re)positioned at the very end
 					// of the log): the caller is told, nothing is lost - it opens a new reader, which must find the message
 					if r, err = l.NewReader(pos, true); err != nil {
 						setBad(fmt.Sprintf("%s: no reader can be opened at offset %d although the log holds it: %v", desc(i), pos, err))
 						return
 					}
-					ctx2, cancel2 := context.WithTimeout(context.Background(), 100*time.Millisecond)
+					ctx2, cancel2 := context.WithTimeout(context.Background(), 10*time.Second)
 					m, off, _, _, err := r.ReadMessage(ctx2, hb)
 					cancel2()
 					if err != nil {
@@ -177,10 +177,16 @@ func TestLbvcBoundedReaders(t *testing.T) {
 				}
 				pos++
 			case 'R':
-				ctx, cancel := context.WithTimeout(context.Background(), 25*time.Millisecond)
+				have := pos < int64(len(model)) && (!c.committed || pos <= hw)
+				// a read that has something to return is given plenty of time (a loaded machine must not look like a
+				// lost message); one that has nothing to return is cut short
+				wait := 25 * time.Millisecond
+				if have {
+					wait = 10 * time.Second
+				}
+				ctx, cancel := context.WithTimeout(context.Background(), wait)
 				m, off, _, _, err := r.ReadMessage(ctx, hb)
 				cancel()
-				have := pos < int64(len(model)) && (!c.committed || pos <= hw)
 				if err == nil && c.committed && off > hw {
 					setBad(fmt.Sprintf("%s: the committed reader is handed offset %d (%q) although the high watermark is %d", desc(i), off, m.Value(), hw))
 					return
